@@ -2,7 +2,7 @@ SPECIFICATION TraceSpec
 CONSTANTS
   Rids <- TraceRids
   MaxItems = 0
-  Outcomes = {"success", "successSetsId", "successClearsId", "typedError", "plainError", "panic", "unrouted", "critical"}
+  Outcomes = {"success", "successSetsId", "successClearsId", "discover", "typedError", "plainError", "panic", "unrouted", "critical"}
   Options = {"unset", "Continue", "Stop", "Undo"}
 INVARIANTS TraceInv
 CONSTRAINT HighWater
